@@ -483,8 +483,14 @@ fn sigint_case(ctx: &Ctx, env: &RealEnv, dir: &std::path::Path, case: u64, rng: 
     // Commands running when the signal arrived die.  Before n2 sees the first of those deaths it may
     // still process completions that were already queued and start a successor for each: at most -j
     // starts can follow the signal (a logical bound; no wall-clock grace period is involved).
+    // (With no command executing when the signal arrived -- a slow n2 had not started any yet -- nothing
+    // dies and n2 carries on; only the exit status tells then.)
+    let executing_at_signal = out.events.iter().filter(|e| e.kind == 'S' && e.ns <= t_sig).count() > out.events.iter().filter(|e| e.kind == 'E' && e.ns <= t_sig).count();
+    if !executing_at_signal {
+        rep.count("sigint_with_nothing_executing", 1);
+    }
     let late: Vec<String> = out.events.iter().filter(|e| e.kind == 'S' && e.ns > t_sig).map(|e| e.step.clone()).collect();
-    if late.len() > inv.j.unwrap_or(16) {
+    if executing_at_signal && late.len() > inv.j.unwrap_or(16) {
         rep.violation("start-after-sigint", &format!("{} commands ({:?}) were started after SIGINT with -j {}", late.len(), late, inv.j.unwrap_or(16)), mk());
     }
     if out.started().len() < ntasks {
